@@ -2,7 +2,6 @@ package regexp2
 
 import (
 	"strconv"
-	"unicode"
 )
 
 // Shared harness helpers (overlay file; see /verif/DESIGN.md section 3).
@@ -20,23 +19,9 @@ func verifText(n int) []rune {
 	return t
 }
 
-// verifSumCaseSimple: r is caseless or a member of a plain upper/lower pair (the
-// domain on which case-insensitive matching has one agreed meaning).
-func verifSumCaseSimple(r rune) bool {
-	f := unicode.SimpleFold(r)
-	if f == r {
-		return true
-	}
-	if unicode.SimpleFold(f) != r {
-		return false
-	}
-	lo, up := unicode.ToLower(r), unicode.ToUpper(r)
-	return (lo == r && up == f) || (up == r && lo == f)
-}
-
 func verifAssumeCaseSimple(t []rune) {
 	for _, r := range t {
-		verifAssume(verifSumCaseSimple(r))
+		verifAssume(verifCaseSimple(r))
 	}
 }
 
@@ -247,4 +232,26 @@ func VerifCheck_spike() {
 func VerifCheck_canary() {
 	t := verifText(2)
 	verifAssert("canary", !(t[0] == 'a' && t[1] == 'b'))
+}
+
+// debugging aid: concrete text
+func VerifSetup_dbgcode() { VerifSetup_dbg() }
+
+func VerifSetup_dbg() {
+	verifRE = verifCompile(verifParam("pattern"), verifParamInt("options"), verifParam("copts"))
+}
+
+func VerifCheck_dbg() {
+	t := []rune(verifParam("text"))
+	m, _ := verifRE.FindRunesMatch(t)
+	verifNoteInts("find", verifSnap(m))
+	nm, _ := verifNaiveScan(verifRE, t, 0, -1)
+	verifNoteInts("naive", verifSnap(nm))
+}
+
+func VerifCheck_dbgcode() {
+	for i := range verifRE.code.Sets {
+		verifNote(verifRE.code.Sets[i].String())
+	}
+	verifNoteInts("codes", verifRE.code.Codes)
 }
